@@ -1,4 +1,4 @@
-From Verif Require Import Lib.Base Registry.Model Registry.Lemmas Registry.Proofs Registry.ProofsRt Registry.ProofsAddr Gen.RegistryConsts.
+From Verif Require Import Lib.Base Registry.Model Registry.Lemmas Registry.Proofs Registry.ProofsRt Registry.ProofsAddr Registry.ProofsStatus Registry.Sanity Gen.RegistryConsts.
 
 (* G: the SetNode of the CURRENT source performs all key-map removals before the
    first insertion (read from the source by harness/cmd/gen registryconsts) ... *)
@@ -209,7 +209,8 @@ Print Assumptions claims_mirror.
    whose caller is the staking account controlling the EXISTING descriptor
    (entity governance: the owning entity; runtime governance: the runtime's own
    account), or the new descriptor's controlling account if the runtime is new;
-   the kind is kept and governance may only go from entity to runtime. *)
+   the kind is kept, governance may only go from entity to runtime, and a key
+   manager reference once set is neither removed nor changed. *)
 Theorem authority_runtime :
   forall (addr : N -> N) (fixed : bool) (maxexp debond : N) s o s' r,
     tx_op o = true -> Inv_rt s -> step addr fixed maxexp debond s o = (COk, s') ->
@@ -219,7 +220,8 @@ Theorem authority_runtime :
       (r_gov rt = 1 \/ r_gov rt = 2) /\
       match any_runtime s r with
       | Some old => rt_acct old = Some caller /\ r_kind old = r_kind rt /\
-                    (r_gov old = r_gov rt \/ (r_gov old = 1 /\ r_gov rt = 2))
+                    (r_gov old = r_gov rt \/ (r_gov old = 1 /\ r_gov rt = 2)) /\
+                    km_changed (r_km old) (r_km rt) = false
       | None => rt_acct rt = Some caller
       end.
 Proof. exact authority_runtime. Qed.
@@ -311,3 +313,74 @@ Theorem exchange_condition_exact :
     ~ Inv_index (snd (step addr false maxexp debond s (TRegNode txs n signers ok))).
 Proof. exact exchange_breaks_inv. Qed.
 Print Assumptions exchange_condition_exact.
+
+(* ---- round 2: source order of VerifyNodeUpdate, node status, genesis sanity check ---- *)
+
+(* G: the checks of VerifyNodeUpdate appear in the CURRENT source in the order the
+   model ports: node id, entity id, consensus id, THEN the early return for an
+   expired current node, then runtime changes and roles. *)
+Theorem verify_node_update_order_as_modelled :
+  verify_node_update_order = verify_node_update_order_modelled.
+Proof. reflexivity. Qed.
+Print Assumptions verify_node_update_order_as_modelled.
+
+(* After every history from the initial state a status record exists exactly
+   for the registered nodes (created at registration, deleted at removal). *)
+Theorem status_mirrors_nodes :
+  forall (addr : N -> N) (fixed : bool) (maxexp debond : N) (ops : list op) id,
+    forallb tx_op ops = true ->
+    ((exists st, aget id (s_status (run addr fixed maxexp debond ops st0)) = Some st) <->
+     (exists n, aget id (s_nodes (run addr fixed maxexp debond ops st0)) = Some n)).
+Proof. exact status_mirrors_nodes_hist. Qed.
+Print Assumptions status_mirrors_nodes.
+
+(* The freeze end of a status record that exists before and after an operation
+   changes only by the freezing environment, or by an UnfreezeNode transaction
+   signed by the node's entity once the freeze end has passed (then it is 0);
+   in particular re-registration -- renewal or after expiry -- keeps it. *)
+Theorem authority_unfreeze :
+  forall (addr : N -> N) (fixed : bool) (maxexp debond : N) s o s' id st st',
+    tx_op o = true -> IDS (s_nodes s) -> Inv_status s ->
+    step addr fixed maxexp debond s o = (COk, s') ->
+    aget id (s_status s) = Some st -> aget id (s_status s') = Some st' ->
+    st_freeze st' <> st_freeze st ->
+    (exists e, o = LFreeze id e /\ st_freeze st' = e) \/
+    (exists txs n, o = TUnfreeze txs id /\ aget id (s_nodes s) = Some n /\ txs = n_ent n /\
+                   st_freeze st <= s_epoch s /\ st_freeze st' = 0).
+Proof. exact authority_unfreeze. Qed.
+Print Assumptions authority_unfreeze.
+
+Theorem status_invariant_along_histories :
+  forall (addr : N -> N) (fixed : bool) (maxexp debond : N) (ops : list op) s,
+    IDS (s_nodes s) -> Inv_status s -> forallb tx_op ops = true ->
+    Inv_status (run addr fixed maxexp debond ops s).
+Proof. exact status_hist. Qed.
+Print Assumptions status_invariant_along_histories.
+
+(* Genesis sanity check (node part, ported): if it accepts a list of exported
+   node descriptors with distinct ids, every node avoids -- with its consensus,
+   P2P, VRF and TLS keys -- the consensus, P2P and TLS keys of all earlier
+   nodes.  (It does not compare VRF keys of different nodes: see the Example
+   sanity_misses_shared_vrf_key in Registry/Sanity.v.) *)
+Theorem sanity_check_implies_inv :
+  forall maxexp l st st',
+    s_nodes st = [] -> s_keymap st = [] -> NoDup (map n_id (map node_of l)) ->
+    sanity_nodes maxexp st l = Some st' -> pairwise_ok [] (map node_of l).
+Proof.
+  exact (fun maxexp l st st' _ _ Hnd H =>
+           sanity_pairwise maxexp l st st' [] (fun m (Hm : In m []) => match Hm with end) Hnd H).
+Qed.
+Print Assumptions sanity_check_implies_inv.
+
+(* ... and every accepted node names an exported entity that lists it, with valid
+   signatures of its node, consensus, P2P, VRF and TLS keys. *)
+Theorem sanity_check_each_node :
+  forall maxexp l st st',
+    sanity_nodes maxexp st l = Some st' ->
+    s_ents st' = s_ents st /\
+    Forall (fun x => let n := node_of x in
+                     exists ent, aget (n_ent n) (s_ents st) = Some ent /\ In (n_id n) (e_nodes ent) /\
+                                 snd x = true /\
+                                 forall k, In k (n_id n :: keys n) -> In k (snd (fst x))) l.
+Proof. exact sanity_each. Qed.
+Print Assumptions sanity_check_each_node.
